@@ -182,6 +182,7 @@ def report(ctx, rules: Tuple[str, ...], file: str) -> None:
         ctx.discharged += n - len(bad)
         ctx.rules_run[rule] = ctx.rules_run.get(rule, 0) + n
         ctx.nontrivial_keys.add(f"{rule}::ahb-sweep")
+        ctx.bulk_distinct += max(0, n - 1)
     for (rule, key), msgs in sorted(by_key.items())[:20]:
         ctx.ob(rule, key, False, msgs[0], file=file)
     for s in doc["samples"]:
